@@ -51,20 +51,17 @@ pub fn check_sequence(rdhs: &[Rdh], its: bool, how: &str) -> Result<(usize, usiz
                 json!({"index": i, "rdh": r.summary(), "rdh_hex": crate::tape::hex(&b), "its_target": its, "generated_by": how, "first_version": first_version}),
             ));
         }
-        let got11 = running.check(&rdh).is_err();
-        let verdict = reference.step(r);
-        let bad = match verdict {
-            Verdict::Required => !got11,
-            Verdict::Forbidden => got11,
-            Verdict::Free => {
-                nfree += 1;
-                false
-            }
-        };
-        if bad {
+        let e11_text = running.check(&rdh).err().unwrap_or_default();
+        let got11 = !e11_text.is_empty();
+        let reasons = reference.step_reasons(r);
+        let verdict = reasons.overall();
+        if verdict == Verdict::Free {
+            nfree += 1;
+        }
+        if let Some((rule, reported)) = reasons.disagrees(&e11_text) {
             return Err(Fail::new(
-                format!("C10:running-{}", if got11 { "false-alarm" } else { "missed" }),
-                format!("RDH {i}: running check {} E11 but the documented automaton says {verdict:?}", if got11 { "reports" } else { "does not report" }),
+                format!("C10:running-{}:{rule}", if reported { "false-alarm" } else { "missed" }),
+                format!("RDH {i}: rule `{rule}` is {} by the running check but the documented automaton says the opposite (message: `{}`)", if reported { "reported" } else { "not reported" }, e11_text.trim()),
                 json!({"index": i, "rdh": r.summary(), "previous": if i > 0 { rdhs[i - 1].summary() } else { json!(null) }, "generated_by": how,
                        "history_tail": rdhs[i.saturating_sub(4)..=i].iter().map(|x| json!([x.pages_counter, x.stop_bit, x.orbit, x.trigger_type, x.fee_id])).collect::<Vec<_>>()}),
             ));
@@ -283,7 +280,9 @@ fn cli_case(t: &mut Tape, w: &Worker) -> CaseResult {
         let got10 = here.iter().any(|m| m.codes.first().map(|c| c == "10").unwrap_or(false));
         let got11 = here.iter().any(|m| m.codes.first().map(|c| c == "11").unwrap_or(false));
         let want10 = ref_rdh_sanity_fails(&r.encode(), first.version, its);
-        let verdict = reference.step(r);
+        let reasons = reference.step_reasons(r);
+        let verdict = reasons.overall();
+        let e11_text: String = here.iter().filter(|m| m.codes.first().map(|c| c == "11").unwrap_or(false)).map(|m| m.text.lines().next().unwrap_or("").to_string()).collect::<Vec<_>>().join(" ");
         let detail = json!({"index": i, "offset": off, "rdh": r.summary(), "mode": mode.name(), "cmd": spec.describe(), "input": input_detail(&bytes)});
         if got10 != want10 {
             return Err(Fail::new(format!("C10:cli:sanity-{}", if want10 { "missed" } else { "false-alarm" }), format!("CLI: RDH {i} at {off:#X}: E10 reported={got10}, documented conditions violated={want10}"), detail));
@@ -296,6 +295,9 @@ fn cli_case(t: &mut Tape, w: &Worker) -> CaseResult {
             };
             if bad {
                 return Err(Fail::new(format!("C10:cli:running-{}", if got11 { "false-alarm" } else { "missed" }), format!("CLI: RDH {i} at {off:#X}: E11 reported={got11}, automaton says {verdict:?}"), detail));
+            }
+            if let Some((rule, reported)) = reasons.disagrees(&e11_text) {
+                return Err(Fail::new(format!("C10:cli:running-{}:{rule}", if reported { "false-alarm" } else { "missed" }), format!("CLI: RDH {i} at {off:#X}: rule `{rule}` reported={reported} against the documented automaton (`{e11_text}`)"), detail));
             }
         } else if got11 {
             return Err(Fail::new("C10:cli:running-error-in-sanity-mode", format!("CLI: RDH {i}: E11 reported by `{}`", mode.name()), detail));
